@@ -2,6 +2,7 @@
 (extracted) and src/builtins/{tw,replace,string,array}.rs, plus an independent Python
 reading of the specification used as the property oracle on the implementation."""
 import itertools
+import json
 import math
 import os
 import re
@@ -611,7 +612,9 @@ def gen_cases(env):
                     continue
                 cases.append("slice %s %s %s" % (hx(b), a, c))
     for cp in sorted(WS) + [0x1c, 0x1f, 0x200b, 0x180e, 0xfeff]:
-        cases.append("trim %s" % hx((chr(cp) + "x" + chr(cp)).encode()))
+        w = chr(cp)
+        for t in (w + "x" + w, w + "x", "x" + w, w, w + w + "東京" + w, w + "x ", " x" + w, "\t" + w + "x" + w + "\n", "x" + w + "y", w + "42"):
+            cases.append("trim %s" % hx(t.encode()))
     cases.append("ws 0 1114112")
     # to_number, Display -> to_number, case mapping of strings
     for t in tonum_cases(rng, 3000 if quick else 130000):
@@ -627,7 +630,307 @@ def gen_cases(env):
         if rng.random() < 0.3:
             cases.append("%s %s" % ("upper", hx(t.encode())))
             cases.append("%s %s" % ("lower", hx(t.encode())))
+        if rng.random() < 0.15:
+            cases.append("len %s" % hx(t.encode()))
+            cases.append("trim %s" % hx((rng.choice([" ", "\u3000", "\u00a0", ""]) + t + rng.choice(["\n", "\u2003", "\u0085", ""])).encode()))
     return cases, exhaustive_find
+
+
+# ----------------------------------------------------------------------------
+# script level: the same cases through the interpreter's own dispatch (eval_string_member_call /
+# eval_array_member_call in src/runtime.rs).  The function-level result of the implementation is
+# already tied to the proved model and to the oracle above; a script that calls the same method on
+# the same values must print exactly that value, whatever wrapper logic (fast paths, conversion of
+# numeric arguments, result wrapping, Borrowed/Owned receivers, static vs dynamic typing of the
+# receiver) sits between the script and the built-in.
+import langrun
+
+SCRIPT_KINDS = ("find", "replace", "split", "splitjoin", "slice", "len", "trim", "upper", "lower", "tonum")
+SCRIPT_METHOD = {"find": "find", "replace": "replace", "split": "split", "slice": "slice", "len": "len", "trim": "trim",
+                 "upper": "to_uppercase", "lower": "to_lowercase", "tonum": "to_number"}
+SCRIPT_PRELUDE = """do m_find(s, a) start
+    return s.find(a)
+end
+do m_replace(s, a, b) start
+    return s.replace(a, b)
+end
+do m_split(s, a) start
+    return s.split(a)
+end
+do m_splitjoin(s, a) start
+    return s.split(a).join(a)
+end
+do m_join(xs, a) start
+    return xs.join(a)
+end
+do m_slice(s, a, b) start
+    return s.slice(a, b)
+end
+do m_len(s) start
+    return s.len()
+end
+do m_trim(s) start
+    return s.trim()
+end
+do m_upper(s) start
+    return s.to_uppercase()
+end
+do m_lower(s) start
+    return s.to_lowercase()
+end
+do m_tonum(s) start
+    return s.to_number()
+end
+"""
+_PLAIN_NUM = re.compile(r"\A[0-9]+(?:\.[0-9]+)?\Z")
+
+
+def ns_literal(text, quote='"'):
+    """NaijaScript string literal whose value is exactly `text`, or None when it cannot be written:
+    the scanner knows \\\\ \\n \\t and the escaped quote; a raw CR/LF ends a literal (LF has an escape,
+    CR has none); braces would be read as a template (C01's subject)."""
+    if any(ch in text for ch in "\r{}"):
+        return None
+    body = text.replace("\\", "\\\\").replace(quote, "\\" + quote).replace("\n", "\\n").replace("\t", "\\t")
+    return quote + body + quote
+
+
+def ns_number(text):
+    """Numeric argument: a plain literal when the scanner can read it, else built from text by to_number
+    (negative, exponent, NaN, infinities) — which the tonum stream ties to the model."""
+    if _PLAIN_NUM.match(text):
+        return text
+    return ns_literal(text) + ".to_number()"
+
+
+def num_value(x):
+    return "n:nan" if x != x else "n:%016x" % struct.unpack(">Q", struct.pack(">d", x))[0]
+
+
+def fl_to_value(case, line):
+    """Function-level observation line -> the value a script must print (lang.rs value_repr), or None."""
+    k = case.split()[0]
+    t = line.split()
+    un = lambda h: h          # lang.rs prints the empty string as "-" too
+    if not t or "INVALID-UTF8" in line or t[0] == "PANIC":
+        return None
+    if t[0] == "found":
+        return num_value(float(int(t[1])))
+    if t[0] == "notfound":
+        return num_value(-1.0)
+    if t[0] == "str":
+        return "s:" + un(t[1])
+    if t[0] == "arr":
+        return "a[" + ",".join("s:" + un(h) for h in t[1].split(",")) + "]"
+    if t[0] == "num":
+        if k == "len":
+            return num_value(float(int(t[1])))
+        return "n:nan" if t[1] == NAN_BITS else "n:" + t[1]
+    return None
+
+
+def script_forms(case, idx, rng, fl_line=None):
+    """[(form name, statements, expression)] for one function-level case; None when a string cannot be
+    written as a literal."""
+    t = case.split()
+    k = t[0]
+    un = lambda h: (b"" if h == "-" else bytes.fromhex(h)).decode()
+    if k == "slice":
+        strs, nums = [un(t[1])], [t[2], t[3]]
+    elif k in ("find", "split", "splitjoin"):
+        strs, nums = [un(t[1]), un(t[2])], []
+    elif k == "replace":
+        strs, nums = [un(t[1]), un(t[2]), un(t[3])], []
+    else:
+        strs, nums = [un(t[1])], []
+    q = rng.choice(['"', '"', "'"])
+    lits = [ns_literal(x, q) for x in strs]
+    if any(l is None for l in lits):
+        return None
+    args = lits[1:] + [ns_number(n) for n in nums]
+    names = ["v%d_%d" % (idx, i) for i in range(len(lits) + len(nums))]
+    decl = "".join("make %s get %s\n" % (n, v) for n, v in zip(names, lits + [ns_number(n) for n in nums]))
+    forms = []
+    if k == "splitjoin":
+        forms.append(("literal", "", "%s.split(%s).join(%s)" % (lits[0], lits[1], lits[1])))
+        forms.append(("variables", decl, "%s.split(%s).join(%s)" % (names[0], names[1], names[1])))
+        forms.append(("parameters", "", "m_splitjoin(%s, %s)" % (lits[0], lits[1])))
+    else:
+        m = SCRIPT_METHOD[k]
+        forms.append(("literal", "", "%s.%s(%s)" % (lits[0], m, ", ".join(args))))
+        forms.append(("variables", decl, "%s.%s(%s)" % (names[0], m, ", ".join(names[1:]))))
+        forms.append(("parameters", "", "m_%s(%s)" % (k, ", ".join([lits[0]] + args))))
+    return forms
+
+
+def join_cases(rng, fl_split):
+    """Array join from scripts: the pieces of a function-level split joined by the separator must give
+    the text back (function-level splitjoin); and arrays with numbers, booleans and nested arrays
+    (elements rendered as Display prints them, nested arrays joined with the same separator)."""
+    out = []
+    for case, line in fl_split:
+        t = case.split()
+        if not line.startswith("arr "):
+            continue
+        un = lambda h: (b"" if h == "-" else bytes.fromhex(h)).decode()
+        parts = [un(h) for h in line.split()[1].split(",")]
+        lits = [ns_literal(p) for p in parts]
+        sep = ns_literal(un(t[2]))
+        if sep is None or any(l is None for l in lits) or len(parts) > 40:
+            continue
+        arr = "[" + ", ".join(lits) + "]"
+        want = "s:" + hx(un(t[2]).join(parts).encode())
+        out.append(("join " + case, [("literal", "", "%s.join(%s)" % (arr, sep)), ("parameters", "", "m_join(%s, %s)" % (arr, sep))], want))
+    mixed = [("[1, \"a\", 2.5]", ["1", "a", "2.5"]), ("[true, \"x\", false]", ["true", "x", "false"]), ("[\"a\", [\"b\", \"c\"], \"d\"]", ["a", None, "d"]),
+             ("[]", []), ("[\"only\"]", ["only"]), ("[\"\", \"\"]", ["", ""]), ("[0.1, 100, 1.5]", ["0.1", "100", "1.5"]), ("[\"é\", \"日本\", \"🌎\"]", ["é", "日本", "🌎"])]
+    for arr, parts in mixed:
+        for sep in ("", ",", ", ", "é", "--"):
+            rendered = [p if p is not None else sep.join(["b", "c"]) for p in parts]
+            want = "s:" + hx(sep.join(rendered).encode())
+            out.append(("join-mixed %s %s" % (arr, sep), [("literal", "", "%s.join(%s)" % (arr, ns_literal(sep))),
+                                                           ("parameters", "", "m_join(%s, %s)" % (arr, ns_literal(sep)))], want))
+    return out
+
+
+def split_values(s):
+    """' n:.. s:.. a[s:..,s:..]' -> list of top-level value tokens"""
+    out, depth, cur = [], 0, ""
+    for ch in s.strip():
+        if ch == " " and depth == 0:
+            if cur:
+                out.append(cur)
+            cur = ""
+            continue
+        depth += ch == "["
+        depth -= ch == "]"
+        cur += ch
+    if cur:
+        out.append(cur)
+    return out
+
+
+SCRIPT_CFGS = ["pf", "nn"]
+
+
+def run_script_items(env, name, items, release=False):
+    """items: [(label, forms, expected value)].  Batches them into scripts; a batch that does not run to
+    the end with one value per shout is re-run item by item.  Returns (failures, evaluations)."""
+    failures = []
+    evals = 0
+
+    def build(batch):
+        src, n = SCRIPT_PRELUDE, 0
+        for _, forms, _ in batch:
+            for _, pre, expr in forms:
+                src += pre + "shout(%s)\n" % expr
+                n += 1
+        return src, n
+
+    def check(batch, recs, cid, single):
+        nonlocal evals
+        src, n = build(batch)
+        r = recs.get(cid)
+        problems = []
+        if r is None or not r.get("accepted"):
+            msg = "script rejected or not run: " + json.dumps((r or {}).get("diags", [])[:2])[:300]
+            return None if not single else [(batch[0], "*", "-", msg)]
+        for cfg in SCRIPT_CFGS:
+            ending, vals = r["runs"].get(cfg, ("missing", ""))
+            got = split_values(vals)
+            if ending != "ok" or len(got) != n:
+                if not single:
+                    return None
+                problems.append((batch[0], "*", cfg, "ending %s, %d of %d values: %s" % (ending, len(got), n, vals[:200])))
+                continue
+            i = 0
+            for item in batch:
+                for form, _, _ in item[1]:
+                    evals += 1
+                    if got[i] != item[2]:
+                        problems.append((item, form, cfg, got[i]))
+                    i += 1
+        return problems
+
+    B = 25
+    batches = [items[i:i + B] for i in range(0, len(items), B)]
+    recs = langrun.run_impl(env, name, [("b%d" % i, build(b)[0]) for i, b in enumerate(batches)], SCRIPT_CFGS, release=release)
+    redo = []
+    for i, b in enumerate(batches):
+        res = check(b, recs, "b%d" % i, False)
+        if res is None:
+            redo += b
+        else:
+            for item, form, cfg, got in res:
+                failures.append((item, form, cfg, got))
+    if redo:
+        recs = langrun.run_impl(env, name + "_one", [("o%d" % i, build([it])[0]) for i, it in enumerate(redo)], SCRIPT_CFGS, release=release)
+        for i, it in enumerate(redo):
+            for item, form, cfg, got in check([it], recs, "o%d" % i, True) or []:
+                failures.append((item, form, cfg, got))
+    out, seen = [], {}
+    for item, form, cfg, got in failures:
+        label = item[0]
+        kind = label.split()[0]
+        seen[kind] = seen.get(kind, 0) + 1
+        if seen[kind] > 4:
+            continue
+        one = SCRIPT_PRELUDE + "".join(pre + "shout(%s)\n" % expr for f, pre, expr in item[1] if form in ("*", f))
+        out.append({"key": "script:%s:%s" % (kind, label if len(label) < 160 else common.chash(label)), "case": label, "form": form, "cfg": cfg,
+                    "observed": "script prints " + got, "expected_by_spec": "function-level result " + item[2], "script": one,
+                    "profile": "release" if release else "debug"})
+    return out, evals, len(failures)
+
+
+def script_stream(env, fl_results, release=False):
+    """fl_results: [(case, function-level implementation line)] of this run.  Picks a share of every kind."""
+    rng = env.rng
+    quick = env.tier == "quick"
+    per_kind = 200 if quick else 2000
+    by_kind = {}
+    for c, a in fl_results:
+        k = c.split()[0]
+        if k in SCRIPT_KINDS and len(c) < 900:
+            by_kind.setdefault(k, []).append((c, a))
+    items, skipped, kinds = [], 0, {}
+    chosen_split = []
+    for k in SCRIPT_KINDS:
+        pool = by_kind.get(k, [])
+        if k in ("trim", "len"):
+            pick = pool if quick and len(pool) < 600 else rng.sample(pool, min(len(pool), max(600, per_kind)))
+        else:
+            # keep the interesting ones likely: half from cases with a non-trivial result
+            nt = [x for x in pool if x[1] not in ("notfound", "str -", "arr -", "num " + NAN_BITS)]
+            # degenerate shapes always go through: empty receiver / argument, argument equal to the receiver,
+            # one-character receivers (where a wrapper's shortcut or pre-test is most likely to differ)
+            def edge(c):
+                t = c.split()
+                return "-" in t[1:] or (len(t) > 2 and t[1] == t[2]) or len(t[1]) <= 2
+            def corner(c):
+                t = c.split()
+                return t[1:].count("-") >= 2 or (len(t) > 2 and t[1] == t[2]) or (t[1] == "-" and len(t) == 2)
+            corners = [x for x in pool if corner(x[0])]
+            corners = corners if len(corners) <= 60 else corners[:20] + rng.sample(corners[20:], 40)
+            edges = [x for x in pool if edge(x[0])]
+            edges = corners + (edges if len(edges) <= 80 else rng.sample(edges, 80))
+            pick = edges + rng.sample(nt, min(len(nt), per_kind // 2)) + rng.sample(pool, min(len(pool), per_kind // 2))
+            seen_c = set()
+            pick = [x for x in pick if not (x[0] in seen_c or seen_c.add(x[0]))]
+        for idx, (c, a) in enumerate(pick):
+            want = fl_to_value(c, a)
+            forms = script_forms(c, len(items), rng) if want is not None else None
+            if forms is None:
+                skipped += 1
+                continue
+            items.append((c, forms, want))
+            kinds[k] = kinds.get(k, 0) + 1
+            if k == "split":
+                chosen_split.append((c, a))
+    for label, forms, want in join_cases(rng, chosen_split[: (60 if quick else 600)]):
+        items.append((label, forms, want))
+        kinds["join"] = kinds.get("join", 0) + 1
+    failures, evals, nfail = run_script_items(env, "scr%d" % int(release), items, release)
+    return failures, {"script_items": len(items), "script_values_compared": evals, "script_kinds": kinds,
+                      "script_skipped_unwritable": skipped, "script_mismatches": nfail, "script_cfgs": SCRIPT_CFGS}
 
 
 def bisect_bad(env, part, release):
@@ -683,6 +986,7 @@ def correspond(env, searching=False, model=True):
     evaluations = 0
     kinds = {}
     case_stats = {}
+    script_stats = {}
     caseref = None
     model_cache = {}
     for release in profiles:
@@ -696,6 +1000,7 @@ def correspond(env, searching=False, model=True):
         if not cf and not cd:
             nontrivial.add(common.chash("casemap-sweep upper %d lower %d" % (case_stats["upper_non_identity"], case_stats["lower_non_identity"])))
         shard = 40000
+        fl_results = []
         for s0 in range(0, len(cases), shard):
             part = cases[s0:s0 + shard]
             li, lm, err = run_shard(env, "s%d_%d" % (int(release), s0), part, release, model_cache, s0, model)
@@ -714,6 +1019,8 @@ def correspond(env, searching=False, model=True):
                 k = c.split()[0]
                 kinds[k] = kinds.get(k, 0) + 1
                 want = spec(c, caseref)
+                if a == want and k in SCRIPT_KINDS:
+                    fl_results.append((c, a))
                 if a != want:
                     key = "spec:" + c if len(c) < 200 else "spec:" + common.chash(c)
                     if a.startswith("PANIC") and c.startswith(("find", "replace")):
@@ -733,6 +1040,16 @@ def correspond(env, searching=False, model=True):
                         nontrivial.add(common.chash(c))
                     if len(samples) < 4 and evaluations % 7919 == 0:
                         samples.append({"case": c, "output": a})
+        # the same cases through scripts (static and dynamic dispatch of the interpreter)
+        sf, sstats = script_stream(env, fl_results, release)
+        for f in sf:
+            if not any(g["key"] == f["key"] for g in failures):
+                failures.append(f)
+        evaluations += sstats["script_values_compared"]
+        kinds["script"] = kinds.get("script", 0) + sstats["script_items"]
+        script_stats = sstats
+        if not sf:
+            nontrivial.add(common.chash("script-stream %s" % json.dumps(sstats["script_kinds"], sort_keys=True)))
     if not samples:
         samples = [{"case": cases[len(cases) // 2], "output": spec(cases[len(cases) // 2])}]
     return {
@@ -747,6 +1064,9 @@ def correspond(env, searching=False, model=True):
                 "Display -> to_number round trips of random doubles of every exponent class; to_uppercase/to_lowercase of EVERY scalar value 0..0x10FFFF "
                 "through the built-ins (68 chunk cases) and of generated strings (special-casing characters, final-sigma contexts, all planes); each case run on the "
                 "implementation, the extracted model and an independent Python reading of the specification; every result re-validated as UTF-8 in the harness; "
+                "a share of every case kind (all trim and len cases up to 600, ~200 per other kind, plus array joins incl. numbers/booleans/nested arrays) is run again from SCRIPTS "
+                "through the interpreter's member-call dispatch in three forms (literal receiver and arguments, statically typed variables, dynamically typed function "
+                "parameters) under two runtime configurations, and must print exactly the function-level result; "
                 "non-trivial = distinct case with a non-empty / found / non-NaN / changed result",
         "samples": samples,
         "failures": failures,
@@ -754,6 +1074,7 @@ def correspond(env, searching=False, model=True):
         "extra": {"case_kinds": kinds, "exhaustive_find_pairs": exhaustive_find, "exhaustive": False,
                   "profiles": ["debug"] + (["release"] if env.tier == "thorough" else []),
                   "case_sweep": case_stats,
+                  "script_stream": script_stats,
                   "case_python_unicode_version": unicodedata.unidata_version,
                   "case_python_version_diffs": caseref.diffs if caseref else []},
     }
@@ -767,6 +1088,20 @@ def replay(env, payload):
     if not c:
         print("replay: no concrete case in this file (obligations: %s)" % payload.get("no_longer_checks"))
         return 1
+    if case.get("script"):
+        # script-level finding: every value the script prints must be the recorded function-level result
+        want = case.get("expected_by_spec", "").replace("function-level result ", "")
+        recs = langrun.run_impl(env, "replay", [("r", case["script"])], SCRIPT_CFGS)
+        r = recs.get("r") or {}
+        bad = not r.get("accepted")
+        for cfg in SCRIPT_CFGS:
+            ending, vals = (r.get("runs") or {}).get(cfg, ("missing", ""))
+            got = split_values(vals)
+            print("case: %s\ncfg %s: ending %s, prints %s\nfunction-level: %s" % (c, cfg, ending, " ".join(got)[:300], want))
+            if ending != "ok" or not got or any(g != want for g in got):
+                bad = True
+        print("replay: %s" % ("still failing" if bad else "passes now"))
+        return 1 if bad else 0
     caseref = None
     if c.split()[0] in ("upper", "lower"):
         caseref = run_case_sweep(env, False, model=False)[0]
